@@ -322,6 +322,14 @@ func c15Case(c *Ctx) {
 
 func c15History(c *Ctx, r *gen.R, nops int, sample bool) {
 	defer knobs(spg.MaxTrials, spg.MaxFailRate)() // whatever the history does to the knobs ends with it
+	envs := envNames()
+	defer envRestore(envs)()
+	if d, note := envConsulted(); note == "ok" {
+		c.Count("environment_probe_ok", 1)
+		c.Max("environment_variables_the_library_was_seen_to_read", int64(len(d)))
+	} else {
+		c.Count("environment_probe_unavailable", 1)
+	}
 	c15Retained = nil
 	pool := &c15Pool{}
 	// shared RequireSets backing array (with spare capacity)
@@ -483,6 +491,16 @@ func c15History(c *Ctx, r *gen.R, nops int, sample bool) {
 				c.Count("field_updates", 1)
 			}
 		}
+		// ---- the process environment changes now and then (the fresh process below starts from another one)
+		if r.Chance(1, 8) {
+			n := envs[r.Intn(len(envs))]
+			if r.Chance(1, 4) {
+				os.Unsetenv(n)
+			} else {
+				os.Setenv(n, envValues[r.Intn(len(envValues))])
+			}
+			c.Count("environment_changes", 1)
+		}
 		// ---- the caller turns the package-level knobs now and then
 		if r.Chance(1, 12) {
 			kn := c13Knobs(r)
@@ -588,6 +606,12 @@ func c15History(c *Ctx, r *gen.R, nops int, sample bool) {
 	payload, _ := json.Marshal(ops)
 	cmd := exec.Command(self, "c15probe")
 	cmd.Stdin = bytes.NewReader(payload)
+	// the fresh process starts from a different environment than any the history saw: every name set,
+	// each to a value drawn for this history
+	cmd.Env = os.Environ()
+	for _, n := range envs {
+		cmd.Env = append(cmd.Env, n+"="+envValues[r.Intn(len(envValues))])
+	}
 	out, err := cmd.Output()
 	if err != nil {
 		c.Inconclusive(fmt.Sprintf("child process failed: %v", err))
